@@ -66,7 +66,7 @@ const (
 
 func genCorePlan(t *rapid.T) corePlan {
 	pl := corePlan{Peers: rapid.IntRange(1, 3).Draw(t, "peers"), Handlers: rapid.IntRange(1, 3).Draw(t, "handlers")}
-	pl.Scripts = genScripts(t, pl.Handlers)
+	pl.Scripts = genScripts(t, pl.Handlers, false)
 	state := make([]int, pl.Peers)
 	// the first handlers subscribe before anything else happens (otherwise most announcements
 	// would meet no application handler besides the world's log)
